@@ -22,7 +22,7 @@ def run(rep):
     rep.set('rule', 'an execution = one interleaving (choice list) with at most d preemptions of one scenario (ending x run length); distinct = '
             'distinct emitted event sequence per scenario')
 
-    explore.explore(rep, 'family-d2' if quick else 'family-d3', fam, 2 if quick else 3, bases, 'checks.oracles:oracle_c18',
+    explore.explore(rep, 'family-d2' if quick else 'family-d4', fam, 2 if quick else 4, bases, 'checks.oracles:oracle_c18',
                     budget_s=600 if quick else 1700)
 
     rep.assumption('distinct_nontrivial = executions with pairwise different timed wire traces (every message sent / delivered / dropped with its virtual time), per scenario; distinct_outcomes = distinct per-filter process() input sequences per scenario')
